@@ -79,6 +79,14 @@ FACTORY = ("def make_r_type(shift_rd):\n    def enc(rd, rs1, rs2, *, opcode, fun
 FENCE_IMM = "    imm = (fm << 8) | (pred << 4) | succ\n"
 IJ_MULT = "    if imm % 2 != 0:\n        raise ValueError('12-bit immediate must be a multiple of 2: {}'.format(imm))\n"
 
+CNOT_LAMBDA = ("def constraint(field, accept, rule):\n    def inner(**kwargs):\n        if not accept(kwargs[field]):\n"
+               "            raise ValueError('constraint failed: {}'.format(rule))\n    return inner\n\n\n"
+               "def constraint_not(field, value):\n    return constraint(field, lambda v: v %s value, '{} must not be {}'.format(field, value))\n")
+FUNCTOOLS = "from functools import partial\n"
+REDUCE_BODY = ("    fields = dict(opcode=opcode, rd=rd, funct3=funct3, rs1=rs1, rs2=rs2)\n    fields['funct7'] = funct7\n"
+               "    positions = {'opcode': 0, 'rd': 7, 'funct3': 12, 'rs1': %d, 'rs2': 20, 'funct7': 25}\n"
+               "    return reduce(or_, (fields[name] << pos for name, pos in positions.items()), 0)")
+
 PRESERVING = [
     ('p-enc-get-none', ENC, [(A, TABLE_TRY, GET_NONE)]),
     ('p-enc-membership', ENC, [(A, TABLE_TRY, MEMBER)]),
@@ -108,6 +116,8 @@ PRESERVING = [
     ('p-enc-partial-chain', ENC, [(A, ADD_BINDING, "ALU_OP     = partial(r_type,   opcode=0b0110011)\nADD        = partial(ALU_OP,   funct3=0b000, funct7=0b0000000)")]),
     ('p-enc-encoder-factory', ENC, [(A, RTYPE_DEF, FACTORY % 7 + RTYPE_DEF), (A, "ADD        = partial(r_type,", "ADD        = partial(r_type2,")]),
     ('p-enc-fields-by-arithmetic', ENC, [(A, FENCE_IMM, "    imm = fm * 256 + pred * 16 + succ\n")]),
+    ('p-enc-lambda-constraint', ENC, [(A, CNOT, CNOT_LAMBDA % '!=')]),
+    ('p-enc-reduce-pack', ENC, [(A, FUNCTOOLS, "from functools import partial, reduce\nfrom operator import or_\n"), (A, RTYPE_BODY, REDUCE_BODY % 15)]),
     ('p-enc-log-call', ENC, [(A, ITYPE_GUARD, "    log.debug('i-type immediate %s', imm)\n" + ITYPE_GUARD, 0)]),
 ]
 
@@ -134,6 +144,8 @@ BREAKING = [
     ('c02-namedtuple-entry', ['C02'], [(A, CIA_DEF, NT_TABLE.replace('Field(6, 6, 5)', 'Field(6, 6, 6)') + CIA_DEF), (A, CIA_BODY, NT_LOOP)]),
     ('c01-partial-chain-opcode', ['C01'], [(A, ADD_BINDING, "ALU_OP     = partial(r_type,   opcode=0b0110011)\nADD        = partial(ALU_OP,   funct3=0b000, funct7=0b0000000, opcode=0b0010011)")]),
     ('c01-encoder-factory-shift', ['C01'], [(A, RTYPE_DEF, FACTORY % 8 + RTYPE_DEF), (A, "ADD        = partial(r_type,", "ADD        = partial(r_type2,")]),
+    ('c02-lambda-constraint-eq', ['C02', 'C06'], [(A, CNOT, CNOT_LAMBDA % '==')]),
+    ('c01-reduce-pack-pos', ['C01'], [(A, FUNCTOOLS, "from functools import partial, reduce\nfrom operator import or_\n"), (A, RTYPE_BODY, REDUCE_BODY % 16)]),
     ('c02-closure-message-value', ['C02', 'C06'], [(A, CNOT, CNOT_MSG.replace('fields[field] == value', 'fields[field] != value'))]),
 ]
 
